@@ -227,4 +227,221 @@ example : (paramsFromCmd av0 (args0 ["only=tutorial1"])).toOption.map (·.testsL
 example : (paramsFromCmd av0 (args0 ["only=tutorial1", "only=all..quicktest"])).toOption.map (·.testsLines)
     = some [("only".toList, "tutorial1".toList), ("only".toList, "all..quicktest".toList)] := by decide
 
+
+/-! ## repeated `only=` arguments intersect and equal the `..` form -/
+
+/-- two `only` lines select what one `only` line with the conjunction of the filters selects
+(at any position: see `order_irrelevant`) -/
+theorem only_only_eq_and (u : List Name) (A B : Filter) (ls : List Line) :
+    select u ((true, A) :: (true, B) :: ls) = select u ((true, andF A B) :: ls) := by
+  simp only [select]
+  congr 1
+  funext n
+  simp only [keep_cons, keepLine, sat_andF]
+  cases sat A n <;> cases sat B n <;> simp
+
+/-- textual form (README: `only=aaa only=bbb` is `only=aaa..bbb`): for comma free operands `a`, `b` of the
+strict grammar the value `a..b` parses to the conjunction, so both command lines select the same tests -/
+theorem only_only_eq_dotdot (u : List Name) (a b : Str) (wa wb : Word)
+    (ha : ∀ c ∈ a, (c == ',') = false) (hb : ∀ c ∈ b, (c == ',') = false)
+    (hpa : parseWord a = some wa) (hpb : parseWord b = some wb) (hlast : a.getLast? ≠ some '.') :
+    parseLines [(kOnly, a), (kOnly, b)] = .ok [(true, [wa]), (true, [wb])] ∧
+    parseLines [(kOnly, a ++ '.' :: '.' :: b)] = .ok [(true, [wa ++ wb])] ∧
+    select u [(true, [wa]), (true, [wb])] = select u [(true, [wa ++ wb])] := by
+  have fa : parseFilter a = some [wa] := by
+    simp [parseFilter, splitComma, splitBy_none _ a ha, hpa]
+  have fb : parseFilter b = some [wb] := by
+    simp [parseFilter, splitComma, splitBy_none _ b hb, hpb]
+  have hab : ∀ c ∈ a ++ '.' :: '.' :: b, (c == ',') = false := by
+    intro c hc
+    simp only [List.mem_append, List.mem_cons] at hc
+    rcases hc with h | h | h | h
+    · exact ha c h
+    · subst h; decide
+    · subst h; decide
+    · exact hb c h
+  have fab : parseFilter (a ++ '.' :: '.' :: b) = some [wa ++ wb] := by
+    have hw : parseWord (a ++ '.' :: '.' :: b) = some (wa ++ wb) := by
+      unfold parseWord at hpa hpb ⊢
+      rw [splitDD_append a b hlast, List.mapM_append, hpa, hpb]
+      rfl
+    simp [parseFilter, splitComma, splitBy_none _ _ hab, hw]
+  refine ⟨?_, ?_, ?_⟩
+  · simp [parseLines, parseLine, fa, fb]
+  · simp [parseLines, parseLine, fab]
+  · have := only_only_eq_and u [wa] [wb] []
+    simpa [andF] using this
+
+example : parseWord "minimal".toList = some [["minimal".toList]] := by decide
+example : parseWord "quicktest.tutorial1".toList = some [["quicktest".toList, "tutorial1".toList]] := by decide
+example : select av0.tests [(true, [[["minimal".toList]]]), (true, [[["quicktest".toList, "tutorial1".toList]]])]
+    = [["minimal".toList, "quicktest".toList, "tutorial1".toList]] := by decide
+example : (parseFilter "minimal..quicktest.tutorial1".toList)
+    = some [[["minimal".toList], ["quicktest".toList, "tutorial1".toList]]] := by decide
+/-- with a comma the textual equivalence does not hold (`,` binds weaker than `..`): `only=a,b only=c`
+is `(a ∨ b) ∧ c` while `only=a,b..c` is `a ∨ (b ∧ c)` — the general law is `only_only_eq_and` -/
+example : select av0.tests [(true, [[["all".toList]], [["normal".toList]]]), (true, [[["files".toList]]])]
+    ≠ select av0.tests [(true, [[["all".toList]], [["normal".toList], ["files".toList]]])] := by decide
+/-- `..` is unordered, `.` is ordered and adjacent -/
+example : select av0.tests [(true, [[["tutorial1".toList], ["normal".toList]]])]
+    = select av0.tests [(true, [[["normal".toList], ["tutorial1".toList]]])] := by decide
+example : select av0.tests [(true, [[["normal".toList, "tutorial1".toList]]])] = [] := by decide
+
+/-! ## `no=` excludes -/
+
+/-- a `no` line removes exactly the variants matching its filter, wherever it stands -/
+theorem no_excludes (u : List Name) (l1 l2 : List Line) (f : Filter) :
+    select u (l1 ++ (false, f) :: l2) = (select u (l1 ++ l2)).filter (fun n => !sat f n) := by
+  have hp : (l1 ++ (false, f) :: l2).Perm ((l1 ++ l2) ++ [(false, f)]) := by
+    simpa using (List.perm_middle (a := (false, f)) (l₁ := l1) (l₂ := l2)).trans
+      (List.perm_append_singleton (false, f) (l1 ++ l2)).symm
+  have : select u (l1 ++ (false, f) :: l2) = select u ((l1 ++ l2) ++ [(false, f)]) := by
+    simp only [select]; congr 1; funext n; exact keep_perm hp n
+  rw [this, select_append]
+  congr 1
+  funext n
+  simp [keep, keepLine]
+
+/-- `no=x` for a single variant name removes the tests whose name contains `x` -/
+theorem no_excludes_variant (u : List Name) (l1 l2 : List Line) (x : Str) :
+    select u (l1 ++ (false, [[[x]]]) :: l2) = (select u (l1 ++ l2)).filter (fun n => !n.contains x) := by
+  rw [no_excludes]
+  congr 1
+  funext n
+  simp [sat, satWord, isInfix_single]
+
+example : select av0.tests [(true, [[["normal".toList]]]), (false, [[["tutorial1".toList]]])]
+    = [["normal".toList, "tutorial2".toList, "files".toList]] := by decide
+/-- excluding everything is rejected as an empty Cartesian product -/
+example : paramsFromCmd av0 (args0 ["only=minimal", "no=tutorial1"]) = .error .emptyProduct := by decide
+
+/-! ## per vm restrictions and `vms=` narrow the objects -/
+
+/-- The restriction lines of every available vm are exactly the typed non-empty `only_<vm>=`/`no_<vm>=`
+values in their order, and the configured (or command line) default **iff** nothing was typed for that
+vm (`only_<vm>=` with an empty value lifts the default: the vm is unrestricted). Arguments for other vms,
+`vms=`, tests and nets do not occur in it. -/
+theorem vm_restr_lines (av : Avail) (args : List Str) (c : Config)
+    (h : paramsFromCmd av args = .ok c) :
+    c.availableVms = av.vms.map (fun vm =>
+      (vm, typedVm av vm args ++ (if vmTyped av vm args then [] else vmDefaultLines av c.paramDict vm))) := by
+  obtain ⟨st, hl, hf⟩ := paramsFromCmd_ok h
+  obtain ⟨tl, ls, _, _, _, hc⟩ := finish_ok hf
+  have h1 : c.availableVms = fullVmStrs av st := by rw [hc]
+  have h2 : c.paramDict = st.pd := by rw [hc]
+  rw [h1, h2]
+  unfold fullVmStrs
+  congr 1
+  funext vm
+  obtain ⟨v1, v2⟩ := loop_vmLines vm args _ st hl
+  have e1 : vmLinesOf (St.init av) vm = [] := by simp [vmLinesOf, St.init]
+  have e2 : (St.init av).vmNoDef.contains vm = false := by simp [St.init]
+  rw [e1, List.nil_append] at v1
+  rw [e2, Bool.false_or] at v2
+  have : fullVmStr av st vm = vmLinesOf st vm ++
+      (if st.vmNoDef.contains vm then [] else vmDefaultLines av st.pd vm) := by
+    unfold fullVmStr vmLinesOf vmDefaultLines
+    rfl
+  rw [this, v1, v2]
+
+/-- more restriction lines never select more: the selection under `ls ++ extra` is a sub-list of the
+selection under `ls` (for tests, nets and vm variants alike) -/
+theorem vm_restr_narrows (u : List Name) (ls extra : List Line) :
+    (select u (ls ++ extra)).Sublist (select u ls) := by
+  rw [select_append]
+  exact List.filter_sublist
+
+/-- on the vm objects: if both restriction strings parse and select something, the objects of the longer
+one are among the objects of the shorter one -/
+theorem vm_objects_narrow (av : Avail) (vm : Str) (lines extra : List (Str × Str)) (r r' : List Name)
+    (h : selectedVmObjs av vm lines = .ok r) (h' : selectedVmObjs av vm (lines ++ extra) = .ok r') :
+    r'.Sublist r := by
+  unfold selectedVmObjs at h h'
+  rw [parseLines_append] at h'
+  cases hp : parseLines lines with
+  | error e => simp [hp] at h
+  | ok ls =>
+    simp only [hp] at h h'
+    cases hq : parseLines extra with
+    | error e => simp [hq] at h'
+    | ok ex =>
+      simp only [hq] at h'
+      by_cases he : (select (vmUniverse av vm) ls).isEmpty = true
+      · simp [he] at h
+      · by_cases he' : (select (vmUniverse av vm) (ls ++ ex)).isEmpty = true
+        · simp [he'] at h'
+        · rw [if_neg he] at h
+          rw [if_neg he'] at h'
+          cases h; cases h'
+          exact vm_restr_narrows _ ls ex
+
+example : selectedVmObjs av0 "vm1".toList [] =
+    .ok [["vm1".toList, "Linux".toList, "CentOS".toList], ["vm1".toList, "Linux".toList, "Fedora".toList]] := by decide
+example : selectedVmObjs av0 "vm1".toList [("only".toList, "Fedora".toList)] =
+    .ok [["vm1".toList, "Linux".toList, "Fedora".toList]] := by decide
+example : (paramsFromCmd av0 (args0 ["only_vm1=Fedora", "aaa=b", "no_vm1=x"])).toOption.map (·.availableVms)
+    = some [("vm1".toList, [("only".toList, "Fedora".toList), ("no".toList, "x".toList)]), ("vm2".toList, [])] := by
+  decide
+example : (paramsFromCmd av0 (args0 ["only_vm2=Win10"])).toOption.map (·.availableVms)
+    = some [("vm1".toList, [("only".toList, "CentOS".toList)]), ("vm2".toList, [("only".toList, "Win10".toList)])] := by
+  decide
+example : (paramsFromCmd av0 (args0 ["only_vm1="])).toOption.map (·.availableVms)
+    = some [("vm1".toList, []), ("vm2".toList, [])] := by decide
+
+/-- `vms=` narrows the objects: the vm strings handed on are those of the selected vms, unchanged -/
+theorem vms_narrows (av : Avail) (args : List Str) (c : Config) (h : paramsFromCmd av args = .ok c) :
+    c.vmStrs = c.availableVms.filter (fun p => c.vms.contains p.1) ∧
+    c.vms = lastVms av av.vms args ∧ (∀ x ∈ c.vms, x ∈ av.vms) := by
+  obtain ⟨h1, h2⟩ := vms_selection av args c h
+  refine ⟨?_, h1, h2⟩
+  obtain ⟨st, _, hf⟩ := paramsFromCmd_ok h
+  obtain ⟨tl, ls, _, _, _, hc⟩ := finish_ok hf
+  rw [hc]
+
+example : (paramsFromCmd av0 (args0 ["vms=vm2", "only_vm2=Win7"])).toOption.map (·.vmStrs)
+    = some [("vm2".toList, [("only".toList, "Win7".toList)])] := by decide
+
+/-! ## any other `K=V` overrides that parameter in every parsed test -/
+
+/-- If `K=V` is given (K not `only`/`no`/`only_*`/`no_*`/`vms`) and no later argument writes K, every
+test of the selection has `K ↦ V` with commas replaced by spaces, whatever the configuration says (last
+occurrence wins: "no later argument writes K"). -/
+theorem override_everywhere (av : Avail) (pre post : List Str) (a k v : Str) (c : Config)
+    (h : paramsFromCmd av (pre ++ a :: post) = .ok c)
+    (hkv : splitArg a = some (k, v)) (ht : isTestKey k = false) (ho : isObjKey k = false) (hv : k ≠ kVms)
+    (hpost : ∀ b ∈ post, writes av k b = false) :
+    dictGet c.paramDict k = some (commaToSpace v) ∧
+    ∀ (names : List Name), selectedTests av c = .ok names → ∀ n ∈ names, ∀ base : List (Str × Str),
+      testParam c base k = some (commaToSpace v) := by
+  obtain ⟨st, hl, hf⟩ := paramsFromCmd_ok h
+  obtain ⟨tl, ls, _, _, _, hc⟩ := finish_ok hf
+  have hpd : c.paramDict = st.pd := by rw [hc]
+  have key : dictGet st.pd k = some (commaToSpace v) := by
+    rw [loop_pd k _ _ st hl, List.foldl_append, List.foldl_cons, foldl_pdUpd_not_writes post _ hpost]
+    by_cases hn : k = kNets
+    · subst hn
+      rw [classify_nets_iff.mpr hkv]
+      simp [pdUpd]
+    · rw [classify_other_iff.mpr ⟨hkv, ht, ho, hv, hn⟩]
+      simp [pdUpd]
+  rw [hpd]
+  refine ⟨key, ?_⟩
+  intro names _ n _ base
+  simp [testParam, hpd, key]
+
+example : (paramsFromCmd av0 (args0 ["aaa=b,c", "only=minimal", "aaa=d,e"])).toOption.map (·.paramDict)
+    = some [("aaa".toList, "d e".toList)] := by decide
+example : (paramsFromCmd av0 (args0 ["aaa=b,c"])).toOption.map
+    (fun c => testParam c [("aaa".toList, "configured".toList)] "aaa".toList) = some (some "b c".toList) := by decide
+
+/-! ## the order of independent arguments is irrelevant -/
+
+/-- the selection does not depend on the order of the restriction lines -/
+theorem order_irrelevant (u : List Name) (ls ls' : List Line) (h : ls.Perm ls') :
+    select u ls = select u ls' := by
+  simp only [select]
+  congr 1
+  funext n
+  exact keep_perm h n
+
 end I2N.Props.C11
